@@ -40,7 +40,7 @@ HELPER_HOLES = [
 ]
 # a user expression written AFTER a sibling of each template kind, in the same scope: whatever that sibling's template
 # bound must not be visible there (plain-looking names a template might use for its locals)
-PLAIN_NAMES = ["actual", "expected", "re", "tmp", "value", "result", "pattern", "elem", "__assert_struct_tmp"]
+PLAIN_NAMES = ["actual", "expected", "re", "tmp", "value", "result", "pattern", "elem", "__assert_struct_tmp", "pat", "expr", "lhs", "rhs", "left", "right", "regex", "lit", "val"]
 for _kind, _sib in [("simple", "g: 4"), ("comparison", "g: > 0"), ("range", "g: 1..=9"), ("variant", "o: Some(3)"), ("slice", "xs: [10, ..]"),
                     ("tuple", "t: (3, _)"), ("set", "xs: #(10, ..)"), ("map", 'm: #{{ "a": 1, .. }}'), ("closure", "g: |x| *x > 0"),
                     ("like", "g: =~ Num(4)"), ("index", "xs[0]: 10"), ("method", "xs.len(): 3"), ("wildcard-struct", "t: _ {{ 0: 3, .. }}")]:
@@ -51,6 +51,16 @@ for _kind, _templ, _val in [("slice", "S {{ xs: [== {N}, ..], .. }}", "99i32"), 
                             ("set", "S {{ xs: #(== {N}, ..), .. }}", "99i32"), ("map", 'S {{ m: #{{ "a": == {N}, .. }}, .. }}', "99i32"),
                             ("wildcard-struct", "S {{ t: _ {{ 0: == {N}, .. }}, .. }}", "99i32"), ("nested-slice", "S {{ o: Some(== {N}), xs: [10, ..], .. }}", "99i32")]:
     HELPER_HOLES.append(("operand-inside-" + _kind, _templ, _val, PLAIN_NAMES))
+
+
+# a user expression in the FIELD PATH (index, method argument) of a field whose pattern is of each leaf / composite kind: whatever the
+# pattern's template binds before it evaluates the path must not be visible in the path
+for _kind, _pat in [("simple", "10"), ("comparison", "== 10"), ("comparison-ne", "!= 11"), ("range", "5..=15"), ("like", "=~ Num(10)"), ("closure", "|x| x == 10"),
+                    ("like-expr-operand", "=~ Num(5 + 5)")]:
+    HELPER_HOLES.append(("index-under-" + _kind, "S {{ xs[{N}]: " + _pat + ", .. }}", "0usize", PLAIN_NAMES))
+    HELPER_HOLES.append(("method-arg-under-" + _kind, "S {{ xs.get({N}).unwrap(): " + _pat.replace("|x| x ==", "|x| *x ==") + ", .. }}", "0usize", PLAIN_NAMES))
+for _kind, _pat in [("string", '"bc"'), ("regex", '=~ "b."'), ("closure-str", "|x| x.len() == 2")]:
+    HELPER_HOLES.append(("method-arg-under-" + _kind + "-all-names", "S {{ s.get({N}..).unwrap(): " + _pat + ", .. }}", "1usize", PLAIN_NAMES))
 
 
 def make_cases(rng, _n):
